@@ -18,7 +18,7 @@ INFO = {
     "outside": ["trees outside the corpus", "symbol-valued `set` on int/hex/float targets (rejected as 'not a valid number' by the implementation; not in the documented language)", "tristate m"],
     "stubs": ["executable specification vk/trees/spec.py (trusted, written from language.rst / defaults.rst / the property statement; validated against the real evaluator on seeded random states on every run)"],
 }
-BUDGET = {"quick": 240, "thorough": 1100}
+BUDGET = {"quick": 240, "thorough": 800}
 REGION_MARKER = "default_marker_of_hidden_option_with_user_value"
 
 
